@@ -245,11 +245,15 @@ func largeDocs() []corpus.Doc {
 	}
 	ts := func(i int) string { return fmt.Sprintf("00:%02d:%02d", i/60, i%60) }
 	mk("srt", "", "9999\r\n01:00:00,000 --> 01:00:01,000\r\n", "", "\r\n",
-		func(i int) string { return fmt.Sprintf("%d\r\n%s,000 --> %s,500\r\nline %d\r\n\r\n", i+1, ts(i), ts(i), i) })
+		func(i int) string {
+			return fmt.Sprintf("%d\r\n%s,000 --> %s,500\r\nline %d\r\n\r\n", i+1, ts(i), ts(i), i)
+		})
 	mk("vtt", "WEBVTT\r\n\r\n", "01:00:00.000 --> 01:00:01.000\r\n", "", "\r\n",
 		func(i int) string { return fmt.Sprintf("%s.000 --> %s.500\r\nline %d\r\n\r\n", ts(i), ts(i), i) })
 	mk("ssa", "[Script Info]\r\nTitle: t\r\n\r\n[Events]\r\nFormat: Marked, Start, End, Style, Name, MarginL, MarginR, MarginV, Effect, Text\r\n", "Dialogue: Marked=0,1:00:00.00,1:00:01.00,,,0,0,0,,", "", "",
-		func(i int) string { return fmt.Sprintf("Dialogue: Marked=0,0:%02d:%02d.00,0:%02d:%02d.50,,,0,0,0,,line %d\r\n", i/60, i%60, i/60, i%60, i) })
+		func(i int) string {
+			return fmt.Sprintf("Dialogue: Marked=0,0:%02d:%02d.00,0:%02d:%02d.50,,,0,0,0,,line %d\r\n", i/60, i%60, i/60, i%60, i)
+		})
 	return out
 }
 
